@@ -10,6 +10,8 @@ package main
 
 import (
 	"bytes"
+	"compress/gzip"
+	"io/ioutil"
 	"encoding/binary"
 	"encoding/json"
 	"flag"
@@ -20,6 +22,8 @@ import (
 	"strings"
 
 	"github.com/xelaj/mtproto/internal/encoding/tl"
+	"github.com/xelaj/mtproto/internal/mtproto/messages"
+	"github.com/xelaj/mtproto/internal/mtproto/objects"
 	"github.com/xelaj/mtproto/telegram"
 )
 
@@ -35,6 +39,17 @@ type cval struct {
 	W     int     `json:"w"`
 	LZ    int     `json:"lz"`
 	N     int     `json:"n"`
+	// hand-written MTProto codecs: container items, inner object of rpc_result / gzip_packed
+	Items   []*citem `json:"items"`
+	Obj     *cval    `json:"obj"`
+	ObjImg  []chunk  `json:"objimg"`
+}
+
+type citem struct {
+	N       int     `json:"n"`
+	Seq     int32   `json:"seq"`
+	Body    *cval   `json:"body"`
+	BodyImg []chunk `json:"bodyimg"`
 }
 
 type chunk struct {
@@ -123,8 +138,38 @@ var wrapperTypes = map[string]tl.Object{
 	"aca9fd2e": &telegram.InvokeWithTakeoutParams{},
 }
 
+func specMsgID(n int) int64 { return int64(11)<<48 | int64(4*(500+n)) }
+
+// buildSpecial builds the values of the hand-written codecs
+func buildSpecial(v *cval) (reflect.Value, error) {
+	switch v.K {
+	case "container":
+		c := objects.MessageContainer{}
+		for _, it := range v.Items {
+			c = append(c, &messages.Encrypted{MsgID: specMsgID(it.N), SeqNo: it.Seq, Msg: render(it.BodyImg)})
+		}
+		return reflect.ValueOf(&c), nil
+	case "rpcresult":
+		o, err := buildObject(v.Obj)
+		if err != nil {
+			return reflect.Value{}, err
+		}
+		return reflect.ValueOf(&objects.RpcResult{ReqMsgID: specMsgID(v.N), Obj: o.Interface().(tl.Object)}), nil
+	case "gzip":
+		o, err := buildObject(v.Obj)
+		if err != nil {
+			return reflect.Value{}, err
+		}
+		return reflect.ValueOf(&objects.GzipPacked{Obj: o.Interface().(tl.Object)}), nil
+	}
+	return reflect.Value{}, shapeError{"unknown special kind " + v.K}
+}
+
 // buildObject builds the Go value registered under v.IDHex from the descriptor
 func buildObject(v *cval) (reflect.Value, error) {
+	if v.K == "container" || v.K == "rpcresult" || v.K == "gzip" {
+		return buildSpecial(v)
+	}
 	rt, ok := registryTypes[v.IDHex]
 	if !ok {
 		return reflect.Value{}, shapeError{"constructor " + v.IDHex + " is not registered"}
@@ -265,6 +310,32 @@ func safeDecodeInto(b []byte, t reflect.Type) (o interface{}, err error) {
 	return p.Interface(), err
 }
 
+func checkGzipImage(got, inner []byte) error {
+	if len(got) < 8 || binary.LittleEndian.Uint32(got) != 0x3072cfa1 {
+		return fmt.Errorf("Marshal output does not start with the id of gzip_packed")
+	}
+	d, err := tl.NewDecoder(bytes.NewReader(got[4:]))
+	if err != nil {
+		return err
+	}
+	packed := d.PopMessage()
+	if err := d.CheckErr(); err != nil {
+		return fmt.Errorf("packed_data is not a TL byte string: %v", err)
+	}
+	zr, err := gzip.NewReader(bytes.NewReader(packed))
+	if err != nil {
+		return fmt.Errorf("packed_data is not a gzip stream: %v", err)
+	}
+	plain, err := ioutil.ReadAll(zr)
+	if err != nil {
+		return fmt.Errorf("packed_data does not unpack: %v", err)
+	}
+	if !bytes.Equal(plain, inner) {
+		return fmt.Errorf("unpacked data is not the serialisation of the inner object: %s", firstDiff(plain, inner))
+	}
+	return nil
+}
+
 func firstDiff(a, b []byte) string {
 	n := len(a)
 	if len(b) < n {
@@ -333,6 +404,14 @@ func init() {
 				return nil
 			}
 			want := render(c.Img)
+			if c.Pat == "gzip" {
+				// the compressed bytes are not fixed: constructor id, then a TL byte string holding a gzip stream
+				// of the inner object's schema image
+				if err := checkGzipImage(got, render(c.Val.ObjImg)); err != nil {
+					rep.Disagree("C02:bytes-differ:"+cls, fmt.Sprintf("%s: %v", c.Name, err), info)
+				}
+				want = got
+			}
 			if !bytes.Equal(got, want) {
 				if c.Pat == "wrapper" {
 					rep.Disagree("C13:wrapper-bytes:"+c.Name, fmt.Sprintf("request wrapper %s: %s", c.Name, firstDiff(got, want)), info)
